@@ -48,15 +48,23 @@ def execute(job):
 
     base = os.path.join(W.scratch_base(), str(job["prop"]), str(job["seed"]), str(job.get("variant", 0)))
     os.makedirs(os.path.dirname(base), exist_ok=True)
-    lock = open(base + ".lock", "w")
     deadline = time.monotonic() + 180
     while True:
+        lock = open(base + ".lock", "w")
         try:
             fcntl.flock(lock, fcntl.LOCK_EX | fcntl.LOCK_NB)
-            break
+            # the holder before us unlinks the file when it is done: make sure we locked the file that is there now
+            try:
+                if os.fstat(lock.fileno()).st_ino == os.stat(base + ".lock").st_ino:
+                    break
+            except FileNotFoundError:
+                pass
+            fcntl.flock(lock, fcntl.LOCK_UN)
+            lock.close()
+            continue
         except OSError:
+            lock.close()
             if time.monotonic() > deadline:
-                lock.close()
                 raise RuntimeError(f"scratch world {base} is locked by another process for more than 180 s")
             time.sleep(0.2)
     try:
@@ -87,12 +95,12 @@ def execute(job):
         return out
     finally:
         shutil.rmtree(base, ignore_errors=True)
-        fcntl.flock(lock, fcntl.LOCK_UN)
-        lock.close()
         try:
-            os.unlink(base + ".lock")
+            os.unlink(base + ".lock")  # while still holding the lock: a waiter re-checks the inode
         except OSError:
             pass
+        fcntl.flock(lock, fcntl.LOCK_UN)
+        lock.close()
 
 
 def die_with_parent():
